@@ -898,13 +898,26 @@ class Unit:
         return None
 
     # ---- calls
-    def call_args(self, fn_qt, argnodes, param_decls=None):
+    def call_args(self, fn_qt, argnodes, param_decls=None, callee=None):
         _, ptypes, _ = fn_param_types(fn_qt)
         outs = []
         for i, a in enumerate(argnodes):
             pt = ptypes[i] if i < len(ptypes) else None
+            if a.get('kind') == 'CXXDefaultArgExpr' and not self.kids(a):
+                d = self.default_arg(callee, i)
+                if d is None: raise Unsupported('default argument %d of a callee whose declaration is outside the dumps (in %s)' % (i, self.cur))
+                a = d
             outs.append(self.bind_arg(pt, a))
         return outs
+
+    def default_arg(self, callee, i):
+        """default-argument expression of parameter i, taken from whichever declaration of the callee carries it"""
+        if callee is None: return None
+        for did, dn in self.by_id.items():
+            if dn.get('kind') in FUNC_KINDS and self.canon.get(did) == callee:
+                ps = [c for c in dn.get('inner', []) if c.get('kind') == 'ParmVarDecl']
+                if i < len(ps) and self.kids(ps[i]): return self.kids(ps[i])[0]
+        return None
 
     def bind_arg(self, pt, a):
         if pt is not None and (pt.endswith('&')):
@@ -968,7 +981,7 @@ class Unit:
             if cid is not None and (cid in self.defn or self.want_stub(cid)):
                 self.count_call(self.func_cname(cid))
                 self.need_func(cid)
-                a = self.call_args(rd['type']['qualType'], ks[1:])
+                a = self.call_args(rd['type']['qualType'], ks[1:], callee=cid)
                 call = '%s(%s)' % (self.func_cname(cid), ', '.join(a))
                 return self.deref_if_ref_return(rd['type']['qualType'], call)
             if self.models:
@@ -1011,7 +1024,7 @@ class Unit:
                 self.used_keys.add(('call_as', self.cur, cn)); cn = alt
             self.count_call(cn)
             fq = self.by_id[cid]['type']['qualType']
-            call = '%s(%s)' % (cn, ', '.join([obj] + self.call_args(fq, ks[1:])))
+            call = '%s(%s)' % (cn, ', '.join([obj] + self.call_args(fq, ks[1:], callee=cid)))
             return self.deref_if_ref_return(fq, call)
         if self.models:
             r = self.models.member_call(self, n, me, base, ks[1:])
@@ -1106,7 +1119,7 @@ class Unit:
         """statement text constructing into `target` (a pointer expression)"""
         name = self.ctor_call_name(ce)
         self.count_call(name)
-        args = self.call_args(self.ctor_type(ce), self.kids(ce))
+        args = self.call_args(self.ctor_type(ce), self.kids(ce), callee=self.find_ctor(ce))
         return '%s(%s);' % (name, ', '.join([target] + args))
 
     def e_CXXConstructExpr(self, n):
@@ -1568,9 +1581,11 @@ class Unit:
             if rt_self is None or not rt_self.startswith('struct '): raise Unsupported('receiver type ' + q)
             params.append('%s *self' % rt_self)
         pi = 0
+        pnames = self.spec.get(('params', name))     # a contract written on the definition's parameter names, attached to a declaration
         for pdecl in node.get('inner', []):
             if pdecl.get('kind') == 'ParmVarDecl':
                 pn = pdecl.get('name') or '_p%d' % pi
+                if pnames and d is None and pi < len(pnames): pn = pnames[pi]
                 txt, is_ref = self.decl_text(pdecl, pn)
                 m = re.match(r'^(.*) (\w+)((\[\d*\])+)$', txt)
                 if m: txt = '%s *%s' % (m.group(1), m.group(2))    # array parameter decays
